@@ -26,7 +26,7 @@
    (c) C08_adjacent_safe: wherever two consecutive tokens have no separator text between them
        (e.g. `a(`, `$v`, `...F`, `]!`, and in no_indent mode `(a`, `1)`), the pair is adjacent_safe, so
        the lexer cannot merge or re-split them.
-   (d) C08_tokens_wf: for an AST with valid names and literal-syntax numbers (wfd, a boolean
+   (d) C08_tokens_wf: for an AST with valid names and literal-syntax numbers (pwfd, a boolean
        predicate) and a space/tab indent prefix, every name/number token is a well-formed lexeme and
        every separator text consists of ignored characters (space, tab, LF, comma).
    C08_roundtrip_partial packages (a)-(d).
@@ -100,14 +100,14 @@ Check C08_adjacent_safe : forall cfg d l1 a b l2,
 Print Assumptions C08_adjacent_safe.
 
 Theorem C08_tokens_wf : forall cfg d,
-  wfd d = true -> ws_prefix (pc_prefix cfg) = true -> forallb ptoken_ok (ptokens cfg d) = true.
+  pwfd d = true -> ws_prefix (pc_prefix cfg) = true -> forallb ptoken_ok (ptokens cfg d) = true.
 Proof. exact tokens_wf. Qed.
 Check C08_tokens_wf : forall cfg d,
-  wfd d = true -> ws_prefix (pc_prefix cfg) = true -> forallb ptoken_ok (ptokens cfg d) = true.
+  pwfd d = true -> ws_prefix (pc_prefix cfg) = true -> forallb ptoken_ok (ptokens cfg d) = true.
 Print Assumptions C08_tokens_wf.
 
 Theorem C08_roundtrip_partial : forall cfg d,
-  wfd d = true -> ws_prefix (pc_prefix cfg) = true ->
+  pwfd d = true -> ws_prefix (pc_prefix cfg) = true ->
   exists toks,
     ast_print cfg d = ApOk (pt_render toks) /\
     pt_consecutive_safe toks = true /\
@@ -115,7 +115,7 @@ Theorem C08_roundtrip_partial : forall cfg d,
     pt_shorthand_norm (ptsig toks) = pt_shorthand_norm (ptsig (ptokens pc_default d)).
 Proof. exact roundtrip_partial. Qed.
 Check C08_roundtrip_partial : forall cfg d,
-  wfd d = true -> ws_prefix (pc_prefix cfg) = true ->
+  pwfd d = true -> ws_prefix (pc_prefix cfg) = true ->
   exists toks,
     ast_print cfg d = ApOk (pt_render toks) /\
     pt_consecutive_safe toks = true /\
@@ -144,7 +144,7 @@ Definition c08_ex_doc : document :=
 Definition c08_cfg_noindent : print_config := {| pc_prefix := None; pc_level := 0 |}.
 
 Example C08_nonvacuous :
-  wfd c08_ex_doc = true /\ ws_prefix (pc_prefix c08_cfg_indented) = true /\
+  pwfd c08_ex_doc = true /\ ws_prefix (pc_prefix c08_cfg_indented) = true /\
   ast_print c08_cfg_noindent c08_ex_doc =
     ApOk (c08_n "query Q($v: Int = 1) @d { a b: c(x: [1.5, ""s""]) ...F ... on T { e } } type T implements I { ""d"" f(a: Int): [T!]! }") /\
   (* the relation is not trivially true, and unseparated neighbours do occur *)
@@ -152,5 +152,5 @@ Example C08_nonvacuous :
   adjacent_safe (PtInt (c08_n "1")) (PtPunct PSpread) = false /\
   existsb (fun t => aps_is_empty (pt_sep t)) (tl (ptokens c08_cfg_noindent c08_ex_doc)) = true /\
   (* a rejected AST: the name `1a` *)
-  wfd [DScalar None (c08_n "1a") []] = false.
+  pwfd [DScalar None (c08_n "1a") []] = false.
 Proof. repeat split; vm_compute; reflexivity. Qed.
